@@ -686,6 +686,8 @@ def str_(it, v):
     if isinstance(v, SStr):
         return v
     if isinstance(v, SInt):
+        if it is not None and it.ex.must(SBool(v.t >= 0)):
+            return SStr(z3.IntToStr(v.t))  # non-negative on this path: no sign case
         return str_of_int(v)
     if isinstance(v, SBool):
         return SStr(z3.If(v.t, z3.StringVal("True"), z3.StringVal("False")))
@@ -916,6 +918,9 @@ def m_int(it, v=0, base=10):
         return SInt(I(v))
     if isinstance(v, SStr):
         if base != 10:
+            h = getattr(it, "int_base_model", None)
+            if h is not None:
+                return h(it, v, base)
             raise OutOfSubset("int(str, base)")
         # terms the contract declares to be digit strings (a stated type invariant): no regex query needed
         vt = z3.simplify(v.t)
